@@ -78,8 +78,83 @@ def build_plain(t):
     return c
 
 
+class Rejected(Exception):
+    pass
+
+
+def same_scalar(a, b):
+    return type(a) is type(b) and a == b
+
+
+def plain_merge(d, s):
+    """The merge rules with every directive switched off (what layering means for pure data; Lean: `plainMerge`,
+    BklProofs/Lemmas/C06Layered.lean).  Raises Rejected where the rules reject the child."""
+    if d is None:
+        return s
+    if s is None:
+        return d if isinstance(d, (dict, list)) else None     # a null child keeps a container, replaces a scalar
+    if isinstance(d, dict):
+        if isinstance(s, dict):
+            out = dict(d)
+            for k, v in s.items():
+                out[k] = plain_merge(d[k], v) if k in d else v
+            return out
+        if not d:
+            return s
+        raise Rejected()
+    if isinstance(d, list):
+        if isinstance(s, list):
+            return d + s
+        raise Rejected()
+    if not isinstance(s, (dict, list)) and same_scalar(d, s):
+        raise Rejected()
+    return s
+
+
+def escape_collision(p, v):
+    """Known-finding signature KF-C06-2: at some shared map position parent and (undoubled) child both use a key that
+    contains `$`, or both hold the same `$`-containing string: the doubled spelling is a different key / value for
+    merge, so the override (or its rejection as useless) is lost."""
+    if isinstance(p, dict) and isinstance(v, dict):
+        for k in v:
+            if k in p:
+                if "$" in k:
+                    return True
+                if escape_collision(p[k], v[k]):
+                    return True
+        return False
+    if isinstance(p, str) and isinstance(v, str):
+        return p == v and "$" in p
+    return False
+
+
+KF_HITS = []
+
+
+def build_layered_plain(pair):
+    parent, t = pair
+    c = chain_case([parent, double(t)], env=gen.ENV)
+    try:
+        c["expect"] = [drop_nulls(plain_merge(parent, t))]
+    except Rejected:
+        c["expect"] = "reject"
+    c["kf_sig"] = escape_collision(parent, t)
+    c["noshrink"] = True
+    return c
+
+
 def gen_case(rng):
     r = rng.random()
+    if r < 0.12:
+        # (d) doubled child over a parent of PLAIN data that may itself contain single dollars ($FOO, ${X}, a$b)
+        parent = {rand_string(rng, PLAIN): alpha_tree(rng, PLAIN, 2) for _ in range(rng.randint(1, 4))}
+        if not is_plain(parent):
+            parent = {"a": 1}
+        t = {}
+        for _ in range(rng.randint(1, 3)):
+            k = rng.choice(list(parent) + [rand_string(rng, ALPHA)])
+            t[k] = alpha_tree(rng, ALPHA, 2) if rng.random() < 0.7 else alpha_tree(rng, PLAIN, 1)
+        return build_layered_plain((parent, t))
     if r < 0.5:
         t = {rand_string(rng, ALPHA): alpha_tree(rng, ALPHA, 3) for _ in range(rng.randint(1, 4))}
         return build_doubled(t)
@@ -97,12 +172,21 @@ def oracle(case, go, mo):
     if "expect" not in case or not go or "res" not in go:
         return None
     last = go["res"][-1]
-    if "ok" not in last:
-        return f"plain/escaped data was rejected: {last.get('err')} {last.get('msg','')[:80]}"
-    got = [from_wire(x) for x in last["ok"]]
-    if got != case["expect"]:
-        return "output differs from the original data"
-    return None
+    d = None
+    if case["expect"] == "reject":
+        if not any("err" in x for x in go["res"]):
+            d = "a doubled child that the merge rules reject as data (same value / kind mismatch) was accepted"
+    elif "ok" not in last:
+        d = f"plain/escaped data was rejected: {last.get('err')} {last.get('msg','')[:80]}"
+    else:
+        got = [from_wire(x) for x in last["ok"]]
+        want = [x for x in case["expect"] if x is not None]
+        if got != want:
+            d = "output differs from the original data"
+    if d and case.get("kf_sig"):
+        KF_HITS.append(d)
+        return None
+    return d
 
 
 def nontrivial(case, go, mo):
@@ -126,11 +210,28 @@ def known_findings(rep):
 
 def run(rep):
     known_findings(rep)
+    del KF_HITS[:]
     standard_run(rep, PID, gen_case, nontrivial, "escaped/plain data not preserved", 4000, 200000,
                  "trees whose keys and strings come from an alphabet of $, quotes, braces, colons, dots and every directive "
                  "name/form; (a) every $ doubled, expected output = original minus nulls; (b) directive-free plain data "
-                 "($FOO, ${X}, $(cmd)); (c) doubled tree layered over a $-free parent; non-trivial = contains a $ or is layered",
+                 "($FOO, ${X}, $(cmd)); (c) doubled tree layered over a $-free parent; (d) doubled tree layered over plain data "
+                 "that itself contains single dollars, judged by an independent directive-free merge; non-trivial = contains a $ or is layered",
                  oracle=oracle)
+    from common import load_known
+    for k in load_known().get("open", []):
+        if k.get("property") == PID and k.get("signature") == "c06.escape_collision_across_layers":
+            w = k["witness"]
+            r = run_cases([chain_case([w["parent"], w["child"]], tail=("outdocs",))])[0]
+            last = (r[1] or {}).get("res", [{}])[-1]
+            still = "ok" in last and [from_wire(x) for x in last["ok"]] == [w["observed"]]
+            if KF_HITS or still:
+                rep.known_finding(k["id"], k["what_fails"] + ("" if still else " (witness no longer fails)"))
+            KF_HITS_handled = True
+            break
+    else:
+        if KF_HITS:
+            rep.violation("escaped data layered over data with single dollars: " + KF_HITS[0], {"hits": KF_HITS[:5]}, no_input=True)
+    rep.extra["kf_c06_2_hits"] = len(KF_HITS)
 
 
 def replay(rep, payload):
